@@ -68,6 +68,13 @@ int main(int argc, char** argv) {
                 auto mk = [](const std::string& fk) { return fk.size() < 8 ? (int)(unsigned char)fk[0] : fk.size() == 8 ? 100 : 100 + (int)(unsigned char)fk[8]; };
                 std::string ws = "["; for (std::size_t i = 0; i < tl.size(); i++) { if (i) ws += ","; char* p = std::get<1>(tl[i]); ws += "[" + std::to_string(mk(std::get<0>(tl[i]))) + "," + std::to_string(p ? *(int*)p : 0) + "]"; } ws += "]";
                 M.push_back({vs::S.log.size(), "{\"e\":\"ret\",\"t\":" + T + ",\"st\":\"OK\",\"w\":" + ws + ",\"nvn\":" + std::to_string(nv.size()) + "}"}); return; }
+            else if (P[t].op == "iscan") { long nvn = 0; auto cb = [&](node_version64*, node_version64_body) { nvn++; return false; };
+                auto mk = [](const std::string& fk) { return fk.size() < 8 ? (int)(unsigned char)fk[0] : fk.size() == 8 ? 100 : 100 + (int)(unsigned char)fk[8]; };
+                iscan_context* ctx = nullptr; void* val = nullptr; status rc = iscan_open(&ti, "", scan_endpoint::INCLUSIVE, "", scan_endpoint::INF, ctx, val, cb, false, false);
+                std::string ws = "["; bool first = true;
+                while (rc == status::OK) { std::string fk = ctx->full_key(); if (!first) ws += ","; first = false; ws += "[" + std::to_string(mk(fk)) + "," + std::to_string(val ? *(int*)val : 0) + "]"; rc = iscan_next(ctx, val, cb); }
+                ws += "]"; if (ctx) iscan_close(ctx);
+                M.push_back({vs::S.log.size(), "{\"e\":\"ret\",\"t\":" + T + ",\"st\":\"OK\",\"w\":" + ws + ",\"nvn\":" + std::to_string(nvn) + "}"}); return; }
             else { status rc = remove(tok[t], &ti, k); st = rc == status::OK ? "OK" : rc == status::OK_NOT_FOUND ? "NOT_FOUND" : "OTHER"; }
             M.push_back({vs::S.log.size(), "{\"e\":\"ret\",\"t\":" + T + ",\"st\":\"" + st + "\",\"w\":" + std::to_string(w) + "}"});
         });
